@@ -270,6 +270,13 @@ var constraints = []constraint{
 		renameCriterion(q, "c2", "__concealedCriterion__4")
 		q["biases"] = []interface{}{M{"name": "criteriaConcealment", "props": M{"randomSeed": 7}}, M{"name": "criteriaConcealment", "props": M{"randomSeed": 8}}}
 	}},
+	{name: "invalidReversalAfterOmissionOfEverything", methods: []string{"weightedSum"}, expect: 400, apply: func(q M) {
+		// a constraint of a later bias is checked also when an earlier one left it nothing to work on
+		q["biases"] = []interface{}{M{"name": "criteriaOmission", "props": M{"ratio": 1.0}}, M{"name": "preferenceReversal", "props": M{"ratio": 0.5, "ordering": "noSuchOrdering"}}}
+	}},
+	{name: "reversalRatioAboveOneAfterOmissionOfEverything", methods: []string{"weightedSum"}, expect: 400, apply: func(q M) {
+		q["biases"] = []interface{}{M{"name": "criteriaOmission", "props": M{"ratio": 1.0}}, M{"name": "preferenceReversal", "props": M{"ratio": 1.25}}}
+	}},
 	{name: "emptyMethod", expect: 0, apply: func(q M) { q["preferenceFunction"] = "  " }},
 	{name: "unknownDrawResolution", methods: []string{"majorityHeuristic"}, expect: 0, apply: func(q M) { mpOf(q)["drawResolution"] = "noSuchPolicy" }},
 	{name: "unknownReferenceCriterionType", expect: 0, apply: func(q M) { q["biases"] = oneBias("criteriaConcealment", M{"referenceCriterionType": "noSuchType"}) }},
